@@ -532,6 +532,6 @@ func init() {
 		Level:       "other",
 		Explanation: "Structural necessary conditions of 'open and lock state is accounted for and fully reclaimed': files are closed only through closeAll / temporary-open cleanups and never under a program lock; scheduled leaves are closed on every path; cleanup functions and client holds are discharged exactly once or handed over; opens/closes follow the shared reader/writer counters and every non-zero counter result schedules a close; every state map is emptied by code reachable from lease expiry; confirmed back-references are only cleared by the confirmed record itself; removal asserting 'no locks' is gated (shared with C20). The numerical balance of opens versus closes over all multi-client histories is not decided.",
 		Assumptions: []string{"the lock model of C14", "virtual.Leaf implementations balance their own VirtualOpenSelf/VirtualClose"},
-		Rules:       []RuleFunc{c18CloseSites, c18Cleanup, c18ShareCount, c18Reapers, c20Count, c18PoolEntry, c18EnterOnly, c18Unused, c18OpenAccounted, c18FileHandleReset, c18LockOwnerRules},
+		Rules:       []RuleFunc{c18CloseSites, c18Cleanup, c18ShareCount, c18Reapers, c20Count, c18PoolEntry, c18EnterOnly, c18Unused, c18OpenAccounted, c18FileHandleReset, c18LockOwnerRules, c18DowngradeAndIdleOrder},
 	})
 }
